@@ -22,84 +22,102 @@ func (c *Ctx) stringDecoderClass(fn *types.Func) (class, why string) {
 	if fd == nil {
 		return "", "not a known decoder and not a function of this package"
 	}
-	var par types.Object
-	if fd.Type.Params != nil && len(fd.Type.Params.List) > 0 && len(fd.Type.Params.List[0].Names) > 0 {
-		par = c.Info.Defs[fd.Type.Params.List[0].Names[0]]
-	}
+	par := soleStringParam(c, fd)
 	if par == nil {
 		return "", "helper has no string parameter"
 	}
-	// the decoder call inside: D(quote + param + quote[, &result])
-	class = ""
-	var resVar types.Object
-	quotedParam := func(e ast.Expr) bool {
-		e = unparen(e)
-		if conv, ok := e.(*ast.CallExpr); ok && len(conv.Args) == 1 {
-			if tv, ok := c.Info.Types[conv.Fun]; ok && tv.IsType() {
-				e = unparen(conv.Args[0])
-			}
-		}
-		// `"` + param + `"`  or Sprintf(`"%s"`, param)
-		if call, ok := e.(*ast.CallExpr); ok && c.calleeFull(call) == "fmt.Sprintf" && len(call.Args) == 2 {
-			f, ok := c.constString(call.Args[0])
-			return ok && f == `"%s"` && c.obj(call.Args[1]) == par
-		}
-		be, ok := e.(*ast.BinaryExpr)
-		if !ok || be.Op != token.ADD {
-			return false
-		}
-		inner, ok := unparen(be.X).(*ast.BinaryExpr)
-		if !ok || inner.Op != token.ADD {
-			return false
-		}
-		q1, ok1 := c.constString(inner.X)
-		q2, ok2 := c.constString(be.Y)
-		return ok1 && ok2 && q1 == `"` && q2 == `"` && c.obj(inner.Y) == par
-	}
-	n := 0
-	ast.Inspect(fd.Body, func(m ast.Node) bool {
-		call, ok := m.(*ast.CallExpr)
-		if !ok {
-			return true
-		}
-		switch c.calleeFull(call) {
-		case "encoding/json.Unmarshal":
-			n++
-			if len(call.Args) == 2 && quotedParam(call.Args[0]) {
-				if u, ok := unparen(call.Args[1]).(*ast.UnaryExpr); ok && u.Op == token.AND {
-					if v := c.obj(u.X); v != nil {
-						if b, ok := v.Type().Underlying().(*types.Basic); ok && b.Kind() == types.String {
-							class, resVar = "json", v
-						}
-					}
-				}
-			}
-		case "strconv.Unquote":
-			n++
-			if len(call.Args) == 1 && quotedParam(call.Args[0]) {
-				class = "go-syntax"
-			}
-		}
-		return true
-	})
-	if n != 1 || class == "" {
-		return "", "helper does not apply exactly one known decoder to `\"` + raw + `\"`"
-	}
-	if class == "go-syntax" {
-		return class, ""
-	}
-	// success return yields the decoded variable with a nil error; failure returns a non-nil error
+	x := c.NewSX()
+	x.ForceStep = func(f *types.Func) bool { return f.FullName() == "strconv.Unquote" }
+	paths := x.Run(fd)
 	okRet, errRet := false, false
-	for _, r := range returnsOf(fd.Body) {
-		if len(r.Results) != 2 {
+	for _, p := range paths {
+		if p.Why != "" {
+			return "", "helper outside the path vocabulary: " + p.Why
+		}
+		if p.End == "panic" {
+			continue
+		}
+		if p.End != "return" || len(p.Vals) != 2 {
 			return "", "helper does not return (string, error)"
 		}
-		if c.isNil(r.Results[1]) {
-			if c.obj(r.Results[0]) != resVar {
-				return "", "success path does not return the decoded string"
+		// exactly one decoder application, to `"` + raw + `"`
+		var dec *TCall
+		for _, st := range p.Effects() {
+			if st.Kind != "call" || st.Call == nil || st.Call.Fun == nil {
+				return "", "helper has effects besides the decoder call"
+			}
+			switch st.Call.Fun.FullName() {
+			case "encoding/json.Unmarshal", "strconv.Unquote":
+				if dec != nil {
+					return "", "helper applies more than one decoder"
+				}
+				dec = st.Call
+			default:
+				return "", "helper calls " + st.Call.Fun.FullName()
+			}
+		}
+		if dec == nil || len(dec.Args) == 0 {
+			return "", "helper does not apply exactly one known decoder to `\"` + raw + `\"`"
+		}
+		src := dec.Args[0]
+		if cv, ok := src.(TConv); ok {
+			src = cv.X
+		}
+		for _, probe := range []string{"", "a", "x\\y"} {
+			se := &strEnv{hook: func(t Term) (sval, bool) {
+				if isParamTerm(t, par) {
+					return sval{K: 's', S: probe}, true
+				}
+				return sval{}, false
+			}}
+			if sv, ok := se.val(src); !ok || sv.K != 's' || sv.S != `"`+probe+`"` {
+				return "", "helper does not apply exactly one known decoder to `\"` + raw + `\"`"
+			}
+		}
+		if dec.Fun.FullName() == "strconv.Unquote" {
+			return "go-syntax", ""
+		}
+		if len(dec.Args) != 2 {
+			return "", "json.Unmarshal without a destination"
+		}
+		dst, isAddr := dec.Args[1].(TAddr)
+		if !isAddr {
+			return "", "json.Unmarshal destination is not the address of a string variable"
+		}
+		if dv, ok := dst.X.(TVar); !ok || !isStringType(dv.Obj.Type()) {
+			return "", "json.Unmarshal destination is not a string variable"
+		}
+		// which way did the decoder's error go on this path?
+		failed, decided := false, false
+		for _, cd := range p.Conds() {
+			b, ok := cd.T.(TBin)
+			if !ok || (b.Op != token.NEQ && b.Op != token.EQL) {
+				continue
+			}
+			var other Term
+			if sameTerm(b.X, *dec) {
+				other = b.Y
+			} else if sameTerm(b.Y, *dec) {
+				other = b.X
+			}
+			if _, isNil := other.(TNil); isNil {
+				failed, decided = (b.Op == token.NEQ) == cd.Truth, true
+			}
+		}
+		if !decided {
+			return "", "the decoder's error is not tested"
+		}
+		_, nilErr := p.Vals[1].(TNil)
+		if !failed {
+			d, ok := p.Vals[0].(TDeref)
+			if !nilErr || !ok || !sameTerm(d.X, dst) {
+				return "", "success path does not return the decoded string with a nil error"
 			}
 			okRet = true
 		} else {
+			if nilErr {
+				return "", "a decoder failure is returned as success"
+			}
 			errRet = true
 		}
 	}
@@ -107,6 +125,20 @@ func (c *Ctx) stringDecoderClass(fn *types.Func) (class, why string) {
 		return "", "helper lacks a success or a failure return"
 	}
 	return "json", ""
+}
+
+func soleStringParam(c *Ctx, fd *ast.FuncDecl) types.Object {
+	if fd.Type.Params == nil {
+		return nil
+	}
+	for _, f := range fd.Type.Params.List {
+		for _, nm := range f.Names {
+			if o := c.Info.Defs[nm]; o != nil && isStringType(o.Type()) {
+				return o
+			}
+		}
+	}
+	return nil
 }
 
 // decodeSites: calls inside the two parser machines whose first argument is <builder>.String() and whose callee returns (string, error).
